@@ -14,9 +14,9 @@ PROPERTY = "C31"
 FUNCTIONS = ["wannierberri.system.system_kp.SystemKP.__init__ (k_to_1BZ, k_ham_from_red, derHam/der2Ham/der3Ham)", "wannierberri.system.__finite_differences.find_shells/check_B1/Derivative3D.__call__",
              "wannierberri.data_K.data_K_k.Data_K_k.HH_K/Xbar", "wannierberri.data_K.data_K.Data_K._rotate"]
 BOUNDS = dict(quick=dict(num_wann="1..2", Hamiltonian="polynomial of total degree <= 3 in k (all monomials) with symbolic Hermitian matrix coefficients in [-1,1]",
-                         lattices="kmax=2 (cubic), tetragonal and hexagonal recip_lattice", k="symbolic reduced k in [-0.49,0.49]^3; kp-face cases: one component anywhere in [-1/2,1/2) (first derivative)", conventions="cartesian and reduced k-vector",
+                         lattices="kmax=2 (cubic), tetragonal, hexagonal and one triclinic recip_lattice (triclinic: derivatives up to second order)", k="symbolic reduced k in [-0.49,0.49]^3; kp-face cases: one component anywhere in [-1/2,1/2) (first derivative)", conventions="cartesian and reduced k-vector",
                          finite_diff_dk="1e-4 (default), 1e-3", tolerance="1e-8 absolute (coefficients and k bounded as stated)"),
-              thorough=dict(num_wann="1..3", Hamiltonian="as quick", lattices="as quick plus a triclinic recip_lattice", k="as quick, 2 k-points through Data_K_k", conventions="both",
+              thorough=dict(num_wann="1..3", Hamiltonian="as quick", lattices="as quick, triclinic up to third order", k="as quick, 2 k-points through Data_K_k", conventions="both",
                             finite_diff_dk="1e-4, 1e-3, 1e-2", tolerance="1e-8"))
 EXPLANATION = ("SystemKP is given only a Hamiltonian that is a polynomial in k with symbolic Hermitian coefficient matrices; the real find_shells / Derivative3D chain produces derHam, der2Ham, "
                "der3Ham, which are evaluated at a symbolic k (the box folding `% 1` is resolved by the path explorer).  z3 decides (tolerance shape, double stencil weights) that they equal the "
@@ -116,7 +116,7 @@ def obligations(rec, spec, A, xp):
                 want = want + np.einsum("aijl,mnijl->mna", T4, d3)
             rec.concrete(f"shape of der{order}Ham", np.shape(got) == (nb, nb) + (3,) * order, key="derHam shape")
             rec.close(f"der{order}Ham(k) == analytic" + (" + (1/6) sum_b w_b b_a (b.grad)^3 H  [O(dk^2)]" if order == 1 and deg >= 3 else ""), got, want, tol, bound=1.0,
-                      key=f"der{order}Ham differs from the analytic derivative")
+                      key=f"der{order}Ham differs from the analytic derivative" + (" for k anywhere in the box (layer next to a face included)" if spec.get("face") else ""))
             rec.eq(f"der{order}Ham(k) Hermitian", got, xp.conj(np.swapaxes(got, 0, 1)), key=f"der{order}Ham not Hermitian")
             if order > 1:
                 rec.close(f"der{order}Ham(k) symmetric in the last two cartesian indices", got, np.swapaxes(got, -1, -2), tol, bound=1.0, key=f"der{order}Ham not symmetric in the derivative indices")
@@ -150,7 +150,7 @@ def cases(tier, seed):
     if q:
         combos = [("cubic", True, 3, 2, 1e-4), ("cubic", False, 2, 2, 1e-4), ("cubic", False, 3, 1, 1e-4), ("cubic", True, 2, 1, 1e-4),
                   ("tetra", True, 3, 1, 1e-4), ("tetra", False, 2, 1, 1e-4), ("hex", True, 2, 1, 1e-4), ("hex", False, 3, 1, 1e-4),
-                  ("cubic", True, 3, 1, 1e-3), ("hex", False, 2, 1, 1e-3)]
+                  ("cubic", True, 3, 1, 1e-3), ("hex", False, 2, 1, 1e-3), ("tric", True, 2, 1, 1e-4)]
     else:
         combos = []
         for lattice in ("cubic", "tetra", "hex", "tric"):
@@ -166,7 +166,7 @@ def cases(tier, seed):
         spec = dict(lattice=lattice, cartesian=cart, deg=deg, nb=1, dk=1e-4, nk=1, dkorders=1, orders=1, face=True)
         out.append(Case(f"kp-face {lattice} {'cartesian' if cart else 'reduced'} deg={deg} nb=1: k_0 anywhere in [-1/2,1/2), first derivative", case_run, dict(spec=spec), timeout=1500))
     for lattice, cart, deg, nb, dk in combos:
-        spec = dict(lattice=lattice, cartesian=cart, deg=deg, nb=nb, dk=dk, nk=1 if (q or nb > 1) else 2, dkorders=2 if nb > 1 else 3)
+        spec = dict(lattice=lattice, cartesian=cart, deg=deg, nb=nb, dk=dk, nk=1 if (q or nb > 1) else 2, dkorders=2 if nb > 1 else 3, orders=2 if (q and lattice == "tric") else 3)
         out.append(Case(f"kp {lattice} {'cartesian' if cart else 'reduced'} deg={deg} nb={nb} dk={dk}", case_run, dict(spec=spec), timeout=3000))
     return out
 
